@@ -653,11 +653,148 @@ def search_layers(ctx):
     ctx.ob("C20_search_layers", ok, "search", "")
 
 
+# ---------------------------------------------------------------------------
+# phase 2: closed forms used by the general theorems vs the real code
+# ---------------------------------------------------------------------------
+
+def se_valid(kind, w, z):
+    return kind == 0 or (kind == 1 and (w % 2 == 0 or z == 0)) or (kind == 2 and (w % 2 == 1 or z <= 1))
+
+
+def se_start(kind, w, z):
+    return {0: [1] * w + [0] * z, 1: [0] + [1] * w + [0] * z, 2: [0] * z + [1] * w}[kind]
+
+
+def show_bits(bits):
+    return "".join(str(int(b)) for b in list(bits)[::-1])
+
+
+def deepen(ctx):
+    """executable definitions introduced for the all-n theorems, run against the real code:
+    `treeGates` (T20_unary_tree_gates), `seStart/seEnd/seValid/ehrLast` (T20_ehrlich_subwalk,
+    T20_ehrlich_complete_shapes), `hsInits/hsInitClosed` (initial strings of the hyperspherical
+    binary encoder), and the defining relations of the tree angles (hypotheses of T20_unary_tree)."""
+    ev = ns()
+    E = ev["E"]
+    rng = ctx.rng
+    # -- tree loader, closed form
+    cases = []
+    for m in range(1, (8 if ctx.thorough else 7)):
+        n = 2**m
+        data = np.array([rng.uniform(-1, 1) for _ in range(n)])
+        cases.append((f"TREE {m}", real(lambda: queue_text(E.unary_encoder(data, "tree").queue)), f"unary_encoder(<{n} reals>, 'tree')"))
+    ctx.sample({"suite": "tree_closed_form", "line": cases[1][0], "queue": cases[1][1]})
+    corr_suite(ctx, "tree_closed_form", cases)
+    # -- admissible initial strings of the Ehrlich walk and where the walk ends
+    orig = getattr(E, "_ehrlich_algorithm", None)
+    if orig is None:
+        ctx.ob("C20_corr_ehrlich_shapes", False, "correspondence", "models/encodings.py has no _ehrlich_algorithm any more")
+        ctx.ob("C20_corr_hs_inits", False, "correspondence", "not run")
+    else:
+        lmax = 12 if ctx.thorough else 10
+        cases = []
+        for kind in (0, 1, 2):
+            for w in range(0, lmax + 1):
+                for z in range(0, lmax + 1):
+                    L = w + z + (1 if kind == 1 else 0)
+                    if not (2 <= L <= lmax) or not se_valid(kind, w, z):
+                        continue
+                    start = se_start(kind, w, z)
+                    if not 0 < sum(start) < L:
+                        continue   # python returns a one-element list for constant strings
+                    ctx.stat(f"ehrlich_shape:{'ABC'[kind]}")
+
+                    def stxt():
+                        strings = orig(np.array(start), False)
+                        complete = (len(strings) == math.comb(L, sum(start)) and len(set(strings)) == len(strings)
+                                    and all(len(t) == L and t.count("1") == sum(start) for t in strings)
+                                    and all(sum(a != b for a, b in zip(u, v)) == 2 for u, v in zip(strings, strings[1:])))
+                        if not complete:
+                            py = PRE + (f"s = E._ehrlich_algorithm(np.array({start}), False)\n"
+                                        f"ok = len(s) == math.comb({L}, {sum(start)}) and len(set(s)) == len(s) and all(len(t) == {L} and t.count('1') == {sum(start)} for t in s) "
+                                        "and all(sum(a != b for a, b in zip(u, v)) == 2 for u, v in zip(s, s[1:]))\nprint(s)\nsys.exit(0 if ok else 1)\n")
+                            ctx.fail("_ehrlich_algorithm:shapes", f"_ehrlich_algorithm(np.array({start})) is not a one-move walk through all strings of its weight",
+                                     py, expected=f"{math.comb(L, sum(start))} pairwise different strings", observed=str(strings)[:400], broken=["C20_corr_ehrlich_shapes"])
+                        return f"true {show_bits(start)} {strings[-1]} {strings[-1]} {len(strings)}"
+                    cases.append((f"SHAPE {kind} {w} {z}", real(stxt), f"_ehrlich_algorithm(np.array({start}), False): last string and length"))
+        ctx.sample({"suite": "ehrlich_shapes", "line": cases[7][0], "answer": cases[7][1]})
+        corr_suite(ctx, "ehrlich_shapes", cases)
+        # -- initial strings of the Hamming-weight blocks of the hyperspherical binary encoder
+        cases = []
+        for n in range(2, (9 if ctx.thorough else 8)):
+            rec = []
+
+            def spy(initial_string, return_indices=True):
+                if return_indices:
+                    rec.append([int(b) for b in initial_string])
+                return orig(initial_string, return_indices)
+
+            def htxt():
+                E._ehrlich_algorithm = spy
+                try:
+                    E.binary_encoder(np.arange(1.0, 2**n + 1), "hyperspherical")
+                finally:
+                    E._ehrlich_algorithm = orig
+                t = " ".join(show_bits(b) for b in rec)
+                return t + " # " + t
+            cases.append((f"HSINITS {n}", real(htxt), f"initial strings passed to _ehrlich_algorithm by binary_encoder(<{2**n} reals>, 'hyperspherical')"))
+        corr_suite(ctx, "hs_inits", cases)
+    # -- defining relations of the tree angles (hypotheses of T20_unary_tree) on the real angle function
+    gen = getattr(E, "_generate_rbs_angles", None)
+    bad = []
+    relsetup = ("def heap_norms(x):\n    n = len(x); R = np.zeros(2*n - 1); R[n-1:] = x\n    for e in range(n - 2, -1, -1):\n        R[e] = math.hypot(R[2*e+1], R[2*e+2])\n    return R\n"
+                "def rel_defect(x):\n    x = np.asarray(x, dtype=float); n = len(x); R = heap_norms(x)\n    th = np.asarray(E._generate_rbs_angles(x, 'tree', n), dtype=float)\n"
+                "    c = E.unary_encoder(x, 'tree')\n    par = np.array([float(p[0]) for p in c.get_parameters()])\n"
+                "    assert th.shape == (n - 1,) and np.array_equal(par, th), 'circuit parameters are not the angles in queue order'\n"
+                "    return max(max(abs(R[e]*math.cos(th[e]) - R[2*e+1]), abs(R[e]*math.sin(th[e]) - R[2*e+2])) for e in range(n - 1)) / max(1.0, R[0])\n")
+    if gen is None:
+        ctx.ob("C20_tree_angle_relations", False, "correspondence", "models/encodings.py has no _generate_rbs_angles any more")
+        return
+    env = dict(ev)
+    exec(relsetup, env)
+    for n in (2, 4, 8, 16, 32):
+        for kind, x in data_vectors(rng, n, False, 12 if ctx.thorough else 6):
+            ctx.case(("tree-angles", n, kind, tuple(float(v) for v in x)))
+            ctx.stat(f"tree_angles:n{n}")
+            try:
+                d = env["rel_defect"](x)
+                good = np.isfinite(d) and d <= 1e-9
+                obs = f"defect {d}"
+            except Exception as e:  # noqa: BLE001
+                good, obs = False, f"raised {type(e).__name__}: {e}"
+            if not good:
+                bad.append((n, obs))
+                py = PRE + relsetup + f"x = {arr_repr(x)}\nd = rel_defect(x)\nprint(d)\nsys.exit(0 if np.isfinite(d) and d <= 1e-9 else 1)\n"
+                ctx.fail("_generate_rbs_angles:tree-relations", f"tree angles of {[float(v) for v in x]} violate r_e cos = r_left / r_e sin = r_right (heap order), or are not the circuit parameters in queue order",
+                         py, expected="defect <= 1e-9", observed=obs, broken=["C20_tree_angle_relations"])
+        # index structure, exact: changing data[p] changes exactly the angles of the ancestors of leaf p
+        x = np.array([rng.uniform(0.5, 2.0) for _ in range(n)])
+        try:
+            th0 = np.asarray(gen(x, "tree", n), dtype=float)
+            for p_ in range(n):
+                y = x.copy()
+                y[p_] = y[p_] * 1.37 + 0.11
+                th1 = np.asarray(gen(y, "tree", n), dtype=float)
+                changed = {e for e in range(n - 1) if th0[e] != th1[e]}
+                anc, e = set(), n - 1 + p_
+                while e > 0:
+                    e = (e - 1) // 2
+                    anc.add(e)
+                ctx.case(("tree-angle-index", n, p_))
+                if changed != anc:
+                    bad.append((n, f"data[{p_}] influences angles {sorted(changed)}, ancestors of its leaf are {sorted(anc)}"))
+        except Exception as e:  # noqa: BLE001
+            bad.append((n, f"raised {type(e).__name__}: {e}"))
+    ctx.ob("C20_tree_angle_relations", not bad, "correspondence",
+           f"{len(bad)} violations; first: n={bad[0][0]}: {bad[0][1]}" if bad else "")
+
+
 def run(ctx):
     MODULES, THEOREMS = registry(PROP)
     ctx.theorems = THEOREMS
     build_and_audit(ctx, PROP, MODULES, THEOREMS)
     correspondence(ctx)
+    deepen(ctx)
     search_qft(ctx)
     search_simple(ctx)
     search_unary(ctx)
@@ -671,8 +808,11 @@ def run(ctx):
         "QFT n<=12 with/without swaps, comp_basis_encoder all strings n<=5 x input types + int inputs, ghz n<=12, _generate_rbs_pairs diagonal n<=12 / tree n<=32, "
         "unary_encoder queues, _ehrlich_algorithm strings + (targets, controls) for all (n<=9, k) and the initial strings the hyperspherical encoder uses, "
         "hamming_weight_encoder skeleton n<=7 all k x optimize_controls x full_hwp; "
+        "closed forms behind the all-n theorems: tree loader X::treeGates m vs unary_encoder queues n = 2..64, admissible initial strings of the Ehrlich walk (seStart/seEnd/ehrLast) vs the real walk's last string, "
+        "length and completeness for all shapes of length <= 10, hsInits/hsInitClosed vs the initial strings recorded from binary_encoder(hyperspherical) n <= 7, "
+        "defining relations r_e cos = r_(2e+1), r_e sin = r_(2e+2) of _generate_rbs_angles(tree) (tolerance 1e-9) and its exact index structure (data[p] influences exactly the ancestors of leaf p) n <= 32; "
         "hypotheses of T20_hw_chain verified on the real hamming_weight_encoder circuits n<=8 all k, with/without optimize_controls; "
         "search: QFT unitary vs DFT n<=8 with/without swaps, every encoder applied to |0..0> vs normalised target on the documented basis states with dense / negative / "
         "zero-containing / one-hot / complex data, documented errors")
-    ctx.assumptions.append("gate classes act as documented (C01); arctan2 / acos angle formulas are tied to the data numerically (search), in the theorems the cos/sin of the RBS angles are abstract scalars constrained by r_k c_k = x_k, r_k s_k = r_(k+1)")
-    ctx.assumptions.append("binary encoders (hyperspherical / Hopf), complex-phase bookkeeping of the Hamming-weight encoder and phase_encoder are covered by search only")
+    ctx.assumptions.append("gate classes act as documented (C01); arctan2 / acos angle formulas are tied to the data numerically (search, C20_tree_angle_relations), in the theorems the cos/sin of the RBS angles are abstract scalars constrained by r_k c_k = x_k, r_k s_k = r_(k+1) (diagonal) / r_e c_e = r_(2e+1), r_e s_e = r_(2e+2) (tree)")
+    ctx.assumptions.append("binary encoders (hyperspherical / Hopf: only the gate skeleton's Ehrlich walks are proved complete), complex-phase bookkeeping of the Hamming-weight encoder and phase_encoder are covered by search only")
